@@ -5,6 +5,7 @@ import (
 	"fmt"
 	"reflect"
 	"strings"
+	"time"
 
 	enc "github.com/named-data/ndnd/std/encoding"
 )
@@ -309,6 +310,14 @@ func diff(a, b reflect.Value, path string) string {
 		ja, jb := a.Interface().(enc.Wire).Join(), b.Interface().(enc.Wire).Join()
 		if !bytes.Equal(ja, jb) {
 			return fmt.Sprintf("%s: wire content differs (%d vs %d bytes): %x vs %x", path, len(ja), len(jb), clip(ja), clip(jb))
+		}
+		return ""
+	}
+	if t == typeDuration {
+		// the encoding keeps whole milliseconds: a value with a sub-millisecond part comes back
+		// as a neighbouring whole millisecond (which one is the encoder's choice)
+		if d := a.Int() - b.Int(); d <= -int64(time.Millisecond) || d >= int64(time.Millisecond) {
+			return fmt.Sprintf("%s: duration %d ns vs %d ns", path, a.Int(), b.Int())
 		}
 		return ""
 	}
